@@ -39,7 +39,10 @@ TReq ==
     /\ LET post == ToTree(Line.post)
            s    == SlashClean(Line.src.segs)
            d    == SlashClean(Line.dst.segs)
-       IN  /\ ReqOK(Line.m, tree, post, s, d)
+       \* the previous state is always complete (a history ends after a cut snapshot); a cut
+           \* post-state is compared as far as it was observed
+           cap  == IF Line.truncated THEN Line.cap ELSE NoCap
+       IN  /\ ReqOK(Line.m, tree, post, s, d, cap)
            /\ tree' = post
     /\ nreq' = nreq + 1
     /\ UNCHANGED base
